@@ -459,3 +459,174 @@ func viewIDOnlyWhenFound(r *Run, rule string) {
 		r.Fail(rule, "census", "", "no dispatch on a looked-up view id found in the mirror")
 	}
 }
+
+// storedCommitProofIsPrivate (C10.8 = C05.9 = C01.11): the commit proof recorded with a committed
+// header is a private copy. The kernel recycles its views (Reset / ResetForSameHeight clear the
+// PrevCommitProof map in place and the voting / next-round objects are swapped on a round
+// advance), and a store may retain what it is given (the shipped in-memory store does), so a proof
+// handed over by reference is emptied — or refilled with another height's signatures — by a later
+// shift: the stored certificate for an already committed height changes after the fact.
+func storedCommitProofIsPrivate(r *Run, rule string) {
+	w := r.W
+	n := 0
+	for _, sv := range w.CallersOf(w.ProdFuncs(), "tmstore.CommittedHeaderStore.SaveCommittedHeader") {
+		a := w.A(sv.Fn)
+		arg := a.sh.Of(CallArg(sv.Instr, 2))
+		n++
+		fresh := false
+		var proof *Shape
+		if arg.K == "lit" {
+			for i, f := range arg.F {
+				if f == "Proof" {
+					proof = arg.A[i]
+				}
+			}
+		}
+		if proof != nil {
+			switch {
+			case proof.K == "call" && strings.HasSuffix(proof.S, "CommitProof.Clone"):
+				fresh = true
+			case proof.K == "lit":
+				for i, f := range proof.F {
+					if f == "Proofs" {
+						p := proof.A[i]
+						fresh = p.K == "make" || (p.K == "call" && (p.S == "maps.Clone" || strings.HasSuffix(p.S, ".Clone")))
+					}
+				}
+			}
+		}
+		shown := "<not a CommittedHeader literal>"
+		if proof != nil {
+			shown = proof.String()
+		}
+		r.Check(fresh, rule, fmt.Sprintf("%s#save%d(private-proof)", FuncName(w.Owner(sv.Fn)), n), w.InstrPos(sv.Instr),
+			"the commit proof handed to the committed-header store is a private copy (Clone / freshly built map), not a map the kernel's recycled views still own: "+truncate(shown, 160))
+	}
+	if n == 0 {
+		r.Fail(rule, "callers(SaveCommittedHeader)", "", "no production caller of CommittedHeaderStore.SaveCommittedHeader")
+	}
+}
+
+// forcedViewDiscipline (C11.7): the state-machine view manager's force-send slot is offered by
+// Output without a height/round test and its version becomes lastSentVersion. That is only sound
+// if a pinned view can never outlive the round entrance it was pinned for: either nothing in
+// production pins a view (today: ForceSend has no caller), or Reset clears the slot on every
+// round entrance. Otherwise a view of the round just left is delivered after the state machine
+// entered the next round and its (larger) version suppresses that round's updates.
+func forcedViewDiscipline(r *Run, rule string) {
+	w := r.W
+	fns := tmiFuncs(w)
+	var producers []string
+	for _, fw := range w.FieldWrites(fns, "tmi.stateMachineViewManager", "forceSend") {
+		if fw.Kind != "store" {
+			continue
+		}
+		if st, ok := fw.Instr.(*ssa.Store); ok && w.A(fw.Fn).sh.Of(st.Val).String() == "nil" {
+			continue
+		}
+		// a non-nil store: who can trigger it?
+		callers := w.CallersOf(w.ProdFuncs(), FuncName(fw.Fn))
+		for _, c := range callers {
+			producers = append(producers, FuncName(w.Owner(c.Fn))+" -> "+FuncName(fw.Fn))
+		}
+		if fw.Fn.Signature.Recv() == nil || !strings.HasSuffix(FuncName(fw.Fn), ".ForceSend") {
+			producers = append(producers, FuncName(fw.Fn)+" (direct store)")
+		}
+	}
+	cleared := false
+	if fn := w.Fn("tmi.stateMachineViewManager.Reset"); fn != nil {
+		a := w.AU(fn)
+		a.Instrs(func(in ssa.Instruction) {
+			st, ok := in.(*ssa.Store)
+			if !ok || lastField(st.Addr) != "tmi.stateMachineViewManager.forceSend" || a.sh.Of(st.Val).String() != "nil" {
+				return
+			}
+			all := true
+			for _, ret := range a.Returns() {
+				if !Dominates(in, ret) {
+					all = false
+				}
+			}
+			cleared = cleared || all
+		})
+	}
+	r.Check(len(producers) == 0 || cleared, rule, "tmi.stateMachineViewManager(force-send-slot)", "",
+		fmt.Sprintf("a pinned view never outlives its round entrance: producers=%v, cleared by Reset=%v", producers, cleared))
+}
+
+// positionPersistedAfterMove (C04.10): every kernel call of a kState method that moves the voting
+// position (shift to committing, advance or jump of the voting round) is followed, on every path
+// on which the calling function goes on to return success, by the observer update that persists
+// the position. Otherwise the live position runs ahead of the stored one and a restart moves the
+// voting position backwards.
+func positionPersistedAfterMove(r *Run, rule string) {
+	w := r.W
+	movers := []string{"tmi.kState.ShiftVotingToCommitting", "tmi.kState.AdvanceVotingRound", "tmi.kState.JumpVotingRound"}
+	persists := func(in ssa.Instruction) bool {
+		c := callCommon(in)
+		if c == nil {
+			return false
+		}
+		_, n := calleeName(c)
+		return n == "tmi.Kernel.updateObservers" || n == "tmstore.MirrorStore.SetNetworkHeightRound"
+	}
+	n := 0
+	for _, cs := range w.CallersOf(tmiFuncs(w), movers...) {
+		if !w.IsProd(cs.Fn) || strings.HasPrefix(FuncName(cs.Fn), "tmi.kState.") {
+			continue
+		}
+		n++
+		fn := cs.Fn
+		errIdx := -1
+		if res := fn.Signature.Results(); res.Len() > 0 && res.At(res.Len()-1).Type().String() == "error" {
+			errIdx = res.Len() - 1
+		}
+		// walk from the call; a path is satisfied by a persisting call, by a panic, or by a
+		// return of a non-nil error (the kernel stops on it)
+		var bad ssa.Instruction
+		seen := map[*ssa.BasicBlock]bool{}
+		var walk func(b *ssa.BasicBlock, from int)
+		walk = func(b *ssa.BasicBlock, from int) {
+			for i := from; i < len(b.Instrs); i++ {
+				in := b.Instrs[i]
+				if persists(in) {
+					return
+				}
+				if ret, ok := in.(*ssa.Return); ok {
+					if errIdx >= 0 {
+						// an internal failure (a store or kernel helper's error, propagated): the kernel
+						// stops on it. An error that merely answers the requester (a rejected replay) does
+						// not stop the kernel and is judged like a success return.
+						if c, isC := ret.Results[errIdx].(*ssa.Const); !isC || !c.IsNil() {
+							es := w.A(fn).sh.Of(ret.Results[errIdx]).String()
+							if strings.Contains(es, "@@tmstore.") || strings.Contains(es, "@tmi.Kernel.") {
+								return
+							}
+						}
+					}
+					if bad == nil {
+						bad = ret
+					}
+					return
+				}
+			}
+			for _, s := range b.Succs {
+				if !seen[s] {
+					seen[s] = true
+					walk(s, 0)
+				}
+			}
+		}
+		walk(cs.Instr.Block(), instrIndex(cs.Instr)+1)
+		_, callee := calleeName(callCommon(cs.Instr))
+		det := "position move " + callee + " is followed by the observer update that persists it"
+		pos := w.InstrPos(cs.Instr)
+		if bad != nil {
+			det += " — success return reached without it at " + w.InstrPos(bad)
+		}
+		r.Check(bad == nil, rule, fmt.Sprintf("%s#%s", FuncName(w.Owner(fn)), strings.TrimPrefix(callee, "tmi.kState.")), pos, det)
+	}
+	if n < 3 {
+		r.Fail(rule, "census", "", fmt.Sprintf("only %d kernel call sites of the position-moving kState methods found (3 expected)", n))
+	}
+}
